@@ -1037,11 +1037,15 @@ class Flow(NLRI):
                 pair = self.rules.get(FlowSource.ID, [])
             else:
                 pair = self.rules.get(FlowDestination.ID, [])
+            # the prefixes already stored, of either kind: a route is of one family
+            pair = pair + self.rules.get(ID, [])
             if pair:
                 # rule and pair[0] are IPrefix subclasses (FlowIPv4/FlowIPv6) which have afi
                 rule_afi = getattr(rule, 'afi', None)
                 pair_afi = getattr(pair[0], 'afi', None)
                 if rule_afi is not None and pair_afi is not None and rule_afi != pair_afi:
+                    # the caller has to refuse the route: carrying on without this prefix would
+                    # send a broader filter than the one written
                     return False
             # TODO: verify if this is correct - why reset the afi of the NLRI object after initialisation?
             if rule.NAME.endswith('ipv6'):
@@ -1049,6 +1053,26 @@ class Flow(NLRI):
         self.rules.setdefault(ID, []).append(rule)
         self._packed_stale = True  # Mark packed as stale after modification
         return True
+
+    def settle_family(self) -> None:
+        """Fix the address family once every rule is known, and refuse what it does not define.
+
+        The prefixes decide; without a prefix a component only IPv6 has (next-header,
+        traffic-class, flow-label) makes the route an IPv6 one, otherwise it is IPv4.  A
+        component whose ID the family does not define (flow-label in an IPv4 route) would be
+        sent as a component type the receiver has to treat as malformed: refuse it here.
+        """
+        prefixes = [r for ID in (FlowDestination.ID, FlowSource.ID) for r in self.rules.get(ID, [])]
+        if prefixes:
+            afi = prefixes[0].afi
+        elif any(issubclass(type(r), FlowIPv6) and not issubclass(type(r), FlowIPv4) for rs in self.rules.values() for r in rs):
+            afi = AFI.ipv6
+        else:
+            afi = AFI.ipv4
+        for ID, rules in self.rules.items():
+            if rules and ID not in factory[afi]:
+                raise ValueError(f'{rules[0].NAME} is not a component of {afi} flow routes')
+        self._afi = afi
 
     def _encode_length(self, components: Buffer) -> Buffer:
         """Encode length prefix for wire format."""
